@@ -370,6 +370,30 @@ fn lenient_v<V: Fv>(ctx: &Ctx, rep: &mut Report) {
             }
             off += 9 + (v.unsigned_abs() >> 7) as usize;
         }
+        // two negative zeros at once (a parity-style flag would cancel them)
+        {
+            let zs: Vec<usize> = {
+                let mut off = 0;
+                let mut v = vec![];
+                for x in c.s2.iter() {
+                    if *x == 0 {
+                        v.push(off);
+                    }
+                    off += 9 + (x.unsigned_abs() >> 7) as usize;
+                }
+                v
+            };
+            if zs.len() >= 2 {
+                variants.push(("negative-zero-pair".into(), flip(&flip(&body, zs[0]), zs[1])));
+            }
+            if zs.len() >= 4 {
+                let mut b4 = body.clone();
+                for &o in zs.iter().take(4) {
+                    b4 = flip(&b4, o);
+                }
+                variants.push(("negative-zero-quadruple".into(), b4));
+            }
+        }
         for (name, b2) in variants {
             let out = check_triple::<V>(&format!("lenient-{}-t{}", name.split("-at-").next().unwrap(), t), &c.msg, &build_sig::<V>(&c.salt, &b2), &pkb, rep);
             if let Some((false, VerifyTrace::BadEncoding)) = out {
